@@ -8,6 +8,7 @@ package tor
 // the configuration in force when it was started.
 
 import (
+	"errors"
 	sha1pkg "crypto/sha1"
 	"bytes"
 	"context"
@@ -50,15 +51,48 @@ type fakeTracker struct {
 	url string
 	mu  *sync.Mutex
 	log *[]trackerCall
+	// a tracker that takes its time and then fails (delay > 0): busy meanwhile, in
+	// the error state until ten minutes have passed
+	delay  time.Duration
+	busy   bool
+	failed time.Time
 }
 
-func (f *fakeTracker) URL() string                       { return f.url }
-func (f *fakeTracker) GetState() (tracker.State, error) { return tracker.Ready, nil }
+func (f *fakeTracker) URL() string { return f.url }
+func (f *fakeTracker) GetState() (tracker.State, error) {
+	f.mu.Lock()
+	defer f.mu.Unlock()
+	if f.busy {
+		return tracker.Busy, nil
+	}
+	if !f.failed.IsZero() && time.Since(f.failed) < 10*time.Minute {
+		return tracker.Idle, nil
+	}
+	return tracker.Ready, nil
+}
 func (f *fakeTracker) Announce(ctx context.Context, hash []byte, myid []byte, want int, size int64, port4, port6 int, proxy string, cb func(netip.AddrPort) bool) error {
 	f.mu.Lock()
 	*f.log = append(*f.log, trackerCall{f.url, port4, port6, proxy})
+	if f.delay > 0 {
+		f.busy = true
+	}
 	f.mu.Unlock()
-	return nil
+	if f.delay == 0 {
+		// (like a real tracker: not ready again before its interval has passed)
+		f.mu.Lock()
+		f.failed = time.Now()
+		f.mu.Unlock()
+		return nil
+	}
+	select {
+	case <-time.After(f.delay):
+	case <-ctx.Done():
+	}
+	f.mu.Lock()
+	f.busy = false
+	f.failed = time.Now()
+	f.mu.Unlock()
+	return errors.New("scripted: tracker failed after a long wait")
 }
 
 type httpRec struct {
@@ -160,9 +194,11 @@ func runPrivacy(t *testing.T, sc privScenario) (probs []problem, effects int) {
 		}
 		info := buildInfo(g, truth, "priv", 0)
 		hsh := sha1sum(info)
+		// (one tier whose first tracker is slow and then fails, with a fallback behind it)
 		trackers := [][]tracker.Tracker{
-			{&fakeTracker{"http://fake1.example/announce", &tmu, &tcalls}},
+			{&fakeTracker{url: "http://fake1.example/announce", mu: &tmu, log: &tcalls}},
 			{tracker.New("http://tracker.example/announce")},
+			{&fakeTracker{url: "http://fake-slow.example/announce", mu: &tmu, log: &tcalls, delay: 40 * time.Second}, &fakeTracker{url: "http://fake-fallback.example/announce", mu: &tmu, log: &tcalls}},
 		}
 		tt, err := New(proxy, hsh, "", info, 0, trackers, []webseed.Webseed{webseed.New("http://seed.example/data", true)})
 		if err != nil {
@@ -468,6 +504,29 @@ func TestVerifC18(t *testing.T) {
 				}
 			}
 			rec(nil, 0)
+		}
+	}
+	// reconfigurations that land while an announce is in flight (one tier has a tracker
+	// that takes 40 s and then fails, with a fallback behind it): the switch is
+	// flipped after k slow ticks, for every k that can coincide with that announce
+	for _, init := range confs {
+		if !init.Trackers {
+			continue
+		}
+		for _, proxy := range []bool{false, true} {
+			for k := 1; k <= 7; k++ {
+				if !mine() {
+					continue
+				}
+				for _, c := range confs {
+					var steps []string
+					for i := 0; i < k; i++ {
+						steps = append(steps, "adv:21")
+					}
+					steps = append(steps, step(c), "adv:45", "adv:45", "want", "adv:25")
+					judge(privScenario{init, proxy, steps})
+				}
+			}
 		}
 	}
 	res.Sample(privScenario{confs[11], true, append(append([]string{}, activity...), step(confs[0]))})
